@@ -8,6 +8,22 @@ COMMON_NOTE = ("Trusted base: CPython ints/pow/hashlib; the independent models i
                "Decides only the executions produced: 'held on K observed executions covering these classes', not a proof.")
 
 CHECKS = {
+ "C01": ("boundary oracle on SkToPk -> Sign -> Verify and PopProve -> PopVerify round trips (must be exactly True), contract monitors on the ciphersuite methods for ValidationError refusals and KeyGen range/value, fault injection at hkdf_expand to drive the KeyGen retry loop",
+         "4.C01", "every honest round trip observed must verify; invalid keys of 18 kinds must be refused by three entry points in three suites; keys per bit length 1..255 and boundary keys, messages at SHA-256 block boundaries; the retry loop is reached only through injected faults"),
+ "C02": ("analytic reference-model monitor wrapped around Verify / PopVerify: with the secret key known, True iff the 96 bytes equal the model's canonical signature; driven with 18 candidate classes per base case (other key/message/suite, PoP<->signature, AUG prefix, -S, 2S, S+torsion, identity, bit/flag flips, swaps, lengths)",
+         "4.C02", "the oracle recomputes the truth for every candidate with independent arithmetic, so any accepted non-canonical string or rejected canonical one is seen; reach of decode / subgroup / pairing stages is counted"),
+ "C03": ("reference-model monitors wrapped around Aggregate / AggregateVerify / FastAggregateVerify: group-sum oracle with known secret keys and explicit preconditions, over signer sets with every single-element perturbation, permutations and bracketings",
+         "4.C03", "expected answers are recomputed in the model for whatever the perturbation produced, so no perturbation can false-alarm; Aggregate outputs are compared byte-for-byte and across orders/groupings"),
+ "C04": ("totality contract (bool, no exception) and validity oracle on the five verification entry points under hostile byte strings, plus a pairing-argument monitor wrapped around `pairing` as called by the ciphersuites (every argument pair checked on-curve / in-subgroup / non-identity in model arithmetic)",
+         "4.C04", "grid of lengths, flag combinations, coordinate classes, cofactor-order components and list positions; the argument monitor sees a dropped subgroup check even when the returned boolean stays False"),
+ "C09": ("reference-model monitors wrapped around SkToPk / Sign / PopProve / Aggregate comparing output bytes with an independent end-to-end IETF pipeline model (XMD, hash_to_field, straight-line SSWU, isogeny, h_eff, affine scalar multiplication, ZCash encoding), anchored by published vectors",
+         "4.C09", "every output observed is compared byte-for-byte with the model for keys of every bit length, boundary keys and block-boundary messages in the three suites"),
+ "C10": ("stage-by-stage reference-model monitors on hash_to_field, optimized_swu_G1/G2, iso_map_G1/G2, map_to_curve, clear_cofactor, hash_to_G1/G2 (RFC 9380 straight-line SSWU with inv0, rational isogeny maps, [h_eff]P, subgroup membership), with all eight outcomes of the G2 square-root search and the exceptional inputs required",
+         "4.C10", "each stage of each observed execution is compared with the model so the failing stage is named; exceptional u, zero parts, sgn0 corner cases and six hash functions are driven deliberately"),
+ "C11": ("reference-model monitors on compress/decompress_G1/G2 and the byte helpers against an independent ZCash-format model (accept => same point, on curve, re-encoding identical; model rejects => ValueError), driver-side round-trip oracle, chosen-y points by cube-root construction, flag x coordinate-class grids, bit flips",
+         "4.C11", "tens of thousands of words per run incl. every flag combination against every coordinate class; points with chosen y (around (p-1)/2, y_im = 0, y_re = 0) that random sampling never produces; one known finding (G1 x = 0) is classified by mechanism"),
+ "C17": ("reference-model monitors on subgroup_check ([r]P = O in the model) and clear_cofactor_G1/G2 ([h_eff]P, result in subgroup) over k*G, k*G+T and T for every small prime factor of both cofactors and large-cofactor points, in random projective rescalings; constants compared with values derived from the curve parameter",
+         "4.C17", "points with a non-trivial component of each prime order dividing the cofactors are constructed explicitly, so a test that multiplies by the wrong order or skips the check is exposed"),
  "C06": ("reference-model monitors wrapped around ecdsa_raw_sign / deterministic_generate_k / ecdsa_raw_recover (independent RFC 6979 + affine ECDSA model, OpenSSL as second oracle) over directed hostile key/hash grids",
          "4.C06", "every sign/recover execution is compared with an independent deterministic model; classes for both low-s branches, both R.y parities, boundary keys and hash lengths 0..64 are counted and required"),
  "C07": ("reference-model monitors on add/double/neg/multiply/twist of the four curve modules (independent affine model), exhaustive small-field substitution through the unchanged functions, constants compared with values derived from the curve parameters",
